@@ -221,3 +221,29 @@ package webdav
 //@   ensures Y10: validName(src) && validName(dst) && old(!absent(lnode(src)) && disjoint(lnode(src), lnode(dst)) && absent(lnode(dst)) && !isDir(parent(lnode(dst)))) ==> httpCode(err) == 409
 //@   ensures Y11: err != nil ==> !created && !hostPath(err) && !osIsExist(err)
 //@   ensures WF: wfTree()
+
+//@ -- PROPFIND scope: one visit of the ReadDir walk reports the visited resource under its path relative to the root
+//@ spec extOf(c string) string = c == "/" ? "/." : c
+//@ func webdav.(LocalFileSystem).ReadDir$1(p, fi, err) (r)
+//@   requires V1: fsroot == string(*fs) && err == nil && fi != nil && confined(p)
+//@   assigns HC_L_webdav.FileInfo, E_webdav.FileInfo
+//@   ensures P1: r == nil || r == filepath.SkipDir
+//@   ensures P2: len(*l) == old(len(*l)) + 1 && (forall c string :: canonRooted(c) && p == fjoin(fsroot, c) ==> (*l)[len(*l)-1].Path == extOf(c))
+//@   ensures P3: (*l)[len(*l)-1].IsDir == fiIsDir(fi) && (*l)[len(*l)-1].Size == fiSize(fi) && (*l)[len(*l)-1].ModTime == fiModTime(fi)
+//@   |   && (*l)[len(*l)-1].ETag == hexOf(ns(fiModTime(fi))) + hexOf(fiSize(fi))
+//@   ensures P4: forall i int :: 0 <= i && i < old(len(*l)) ==> (*l)[i] == old((*l)[i])
+//@   ensures P5: r == filepath.SkipDir <==> !*recursive && fiIsDir(fi) && *path != p
+//@ func webdav.(LocalFileSystem).ReadDir(fs, ctx, name, recursive) (l, err)
+//@   requires R1: served(fs) && !strHostPath(name)
+//@   assigns ghost:rdC, ghost:rdIdx
+//@   ensures Z1: err == nil <==> validName(name) && !absent(lnode(name))
+//@   -- every entry is a resource in scope, reported under a path that addresses it again (C03) with its current metadata
+//@   ensures Z2: err == nil ==> (forall i int :: 0 <= i && i < len(l) ==> validName(l[i].Path) && lnode(l[i].Path) == rdNode(i) && inScope(lnode(name), rdNode(i), recursive)
+//@   |   && (l[i].IsDir <==> isDir(rdNode(i))) && l[i].ETag == tagOf(rdNode(i)) && l[i].ETag != "")
+//@   -- every resource in scope is reported, exactly once
+//@   ensures Z3: err == nil ==> (forall m $P :: inScope(lnode(name), m, recursive) ==> 0 <= smt("int", "(select $0 $1)", rdIdx, m) && smt("int", "(select $0 $1)", rdIdx, m) < len(l) && rdNode(smt("int", "(select $0 $1)", rdIdx, m)) == m)
+//@   ensures Z4: err == nil ==> (forall i int, j int :: 0 <= i && i < j && j < len(l) ==> rdNode(i) != rdNode(j))
+//@   ensures Z5: !validName(name) ==> httpCode(err) == 400
+//@   ensures Z6: validName(name) && absent(lnode(name)) ==> httpCode(err) == 404
+//@   ensures Z7: err != nil ==> !hostPath(err)
+//@   ensures Z8: tree == old(tree) && data == old(data)
